@@ -665,6 +665,100 @@ def param_deps(fnode, atom=None, control=True, envs=None):
     return out
 
 
+
+MUTABLE_CTORS = ("dict", "list", "set", "OrderedDict", "defaultdict",
+                 "collections.OrderedDict", "collections.defaultdict")
+MUTATORS = ("append", "extend", "update", "add", "setdefault", "insert",
+            "pop", "popitem", "clear", "remove", "discard", "__setitem__")
+
+
+def _mutable_literal(e):
+    return isinstance(e, (ast.Dict, ast.List, ast.Set, ast.DictComp,
+                          ast.ListComp, ast.SetComp)) or (
+        isinstance(e, ast.Call) and norm(e.func) in MUTABLE_CTORS)
+
+
+def shared_state(prog, fi):
+    """Constructs of function fi through which one call can influence a
+    LATER call (or another instance): memoising decorators, global /
+    nonlocal declarations, and stores into / mutations of a mutable
+    container that lives at module level or at class level (and is not
+    re-bound per instance in __init__).  Returns [(node, description)]."""
+    out = []
+    for d in fi.node.decorator_list:
+        if any(k in norm(d) for k in ("lru_cache", "cache", "memoize",
+                                      "memoise")):
+            out.append((d, "memoising decorator @%s" % norm(d, 40)))
+    for x in walk_no_nested(fi.node):
+        if isinstance(x, (ast.Global, ast.Nonlocal)):
+            out.append((x, norm(x)))
+    mod = prog.modules[fi.module]
+    modlevel = set()
+    for st in mod.tree.body:
+        if isinstance(st, ast.Assign) and _mutable_literal(st.value):
+            modlevel |= {t.id for t in st.targets if isinstance(t, ast.Name)}
+    clslevel = set()
+    cname = fi.cls
+    if cname:
+        ci = prog.classes.get("%s.%s" % (fi.module, cname))
+        if ci is not None:
+            for st in ci.node.body:
+                if isinstance(st, ast.Assign) and _mutable_literal(st.value):
+                    clslevel |= {t.id for t in st.targets
+                                 if isinstance(t, ast.Name)}
+            init = ci.methods.get("__init__")
+            if init is not None:
+                for st in ast.walk(init.node):
+                    if isinstance(st, ast.Assign):
+                        for t in st.targets:
+                            if isinstance(t, ast.Attribute) and \
+                                    norm(t.value) == "self":
+                                clslevel.discard(t.attr)
+    local = {a for a in fi.params}
+    for st in walk_no_nested(fi.node):
+        if isinstance(st, ast.Assign):
+            for t in st.targets:
+                if isinstance(t, ast.Name):
+                    local.add(t.id)
+    a_ = fi.node.args
+    pos = a_.posonlyargs + a_.args
+    mdef = {p_.arg for p_, d in zip(pos[len(pos) - len(a_.defaults):],
+                                    a_.defaults) if _mutable_literal(d)}
+    mdef |= {p_.arg for p_, d in zip(a_.kwonlyargs, a_.kw_defaults)
+             if d is not None and _mutable_literal(d)}
+
+    def shared(e):
+        if isinstance(e, ast.Name) and e.id in mdef:
+            return "mutable default argument %s (one object for all " \
+                "calls)" % e.id
+        if isinstance(e, ast.Name) and e.id in modlevel and \
+                e.id not in local:
+            return "module-level container %s" % e.id
+        if isinstance(e, ast.Attribute) and e.attr in clslevel and \
+                norm(e.value) in ("self", "cls", cname, "type(self)",
+                                  "self.__class__"):
+            return "class-level container %s.%s (shared by all instances)" \
+                % (cname, e.attr)
+        return None
+    for x in walk_no_nested(fi.node):
+        tg = []
+        if isinstance(x, ast.Assign):
+            tg = x.targets
+        elif isinstance(x, ast.AugAssign):
+            tg = [x.target]
+        for t in tg:
+            if isinstance(t, ast.Subscript):
+                d = shared(t.value)
+                if d:
+                    out.append((x, "store into " + d))
+        if isinstance(x, ast.Call) and isinstance(x.func, ast.Attribute) \
+                and x.func.attr in MUTATORS:
+            d = shared(x.func.value)
+            if d:
+                out.append((x, "%s() on " % x.func.attr + d))
+    return out
+
+
 def view_writes(fnode, root_attrs=("img", "rmsimg", "bkgimg", "dcurve")):
     """In-place writes (subscript stores, augmented assignments, fill /
     sort / put) through a name that may be a VIEW of one of the shared image
